@@ -4,7 +4,7 @@ CONSTANTS
   MaxC = 1
   Kinds = {"ixfr2"}
   MaxMsgs = 3
-  FaultKinds = {"none", "drop", "dup", "swap", "trunc"}
+  FaultKinds = {"none", "drop", "dup", "swap", "trunc", "csoa"}
   LaterQ = {FALSE}
 SPECIFICATION Spec
 INVARIANT StepwiseIsRun
